@@ -50,6 +50,7 @@ fn main() {
         ("replay", "cli") => proc::replay(rest),
         ("record", "cli") => proc::record(rest),
         ("measure", "cli") => proc::measure(rest),
+        ("flags", "cli") => proc::flags(rest),
         ("record", "env") => envrun::record(rest),
         ("replay", "render") => render::replay(rest),
         ("record", "render") => render::record(rest),
